@@ -148,7 +148,7 @@ def run(ctx):
                 part.add("nontrivial", k)
             part.add("outcomes", res.GetUnit())
 
-        graph, transitions = algebra.explore(db, depth, BASIS, VALUES, on_transition=on_transition)
+        graph, transitions = algebra.explore(db, depth, BASIS, VALUES, on_transition=on_transition, reciprocals=True)
         for st in graph[: len(BASIS)]:
             check_state(part, db, st.scalar, algebra.describe(st.history, BASIS, VALUES), algebra.expr(st.history, BASIS, VALUES))
         deepest = graph[-1]
@@ -162,7 +162,7 @@ def run(ctx):
     ctx.transitions = transitions + part.counters.get("simple", 0)
     ctx.traces = ctx.transitions
     ctx.rule = (
-        "BFS over products/quotients of %d atomic (category, unit) atoms to depth %d, every transition's result and its reciprocal (1.0 / state) parsed back; plus every (unit, category) "
+        "BFS over products/quotients from %d atomic (category, unit) atoms and their reciprocals to depth %d, every transition's result and its reciprocal (1.0 / state) parsed back; plus every (unit, category) "
         "of the table as a simple quantity; non-trivial = distinct composing maps with at least two denominator factors; outcomes = distinct unit strings"
         % (len(BASIS), depth)
     )
